@@ -28,7 +28,10 @@ ASSUMPTIONS = ["clients accept the fixed version string / salt (checked structur
 
 def first_flushes(fi, roles):
     fl = [bb for bb, t in fi.calls() if cname(t["func"]) == roles.f_flush.path]
-    return fl, [bb for bb in fl if not any(fi.dominates(o, bb) and o != bb for o in fl)]
+    # the first flush of every feasible path from the entry (path-sensitive: a helper's early `return Err` and its
+    # caller's Ok branch do not combine, which plain CFG dominance cannot see)
+    first = sorted({p.blocks[-1] for p in enumerate_paths(fi, stop_at=set(fl), max_visits=1) if p.end == "stop"})
+    return fl, first
 
 
 def run(ctx):
@@ -75,8 +78,12 @@ def run(ctx):
                     npk += 1
                     continue
                 cb = em.const_bytes()
-                if cb is None and em.kind == "raw":
-                    cb = constarr.const_bytes_of_arg(p, pos, 1)
+                if em.kind == "raw":
+                    # a buffer built in a local array: the forward propagation sees element stores (`caps[1] |= 0x08`)
+                    # that the def-use origin of the whole array does not
+                    la = constarr.const_bytes_of_arg(p, pos, 1)
+                    if la is not None:
+                        cb = la
                 if cb is None:
                     const_ok = False
                     out += b"?"
@@ -166,15 +173,11 @@ def run(ctx):
                 if uslice == "none":
                     # allowed only for the pre-TLS SSLRequest: !after_tls && caps.contains(CLIENT_SSL)
                     conds = {}
-                    for i, blk in enumerate(p.blocks[:-1]):
-                        t = ch.term(blk)
-                        if t["k"] == "switch" and "0" in t["vals"]:
-                            v = p.origin_op(t["discr"], i)
-                            truth = p.blocks[i + 1] != t["tgts"][t["vals"].index("0")]
-                            if T.is_param(v, 2):
-                                conds["after_tls"] = truth
-                            if T.is_call(v, r"CapabilityFlags>::contains$") and v[2][1][0] == "const" and v[2][1][1][1] == H.CLIENT_SSL:
-                                conds["ssl"] = truth
+                    for i, blk, v, truth in p.decisions():
+                        if T.is_param(v, 2):
+                            conds["after_tls"] = truth
+                        if T.is_call(v, r"CapabilityFlags>::contains$") and v[2][1][0] == "const" and v[2][1][1][1] == H.CLIENT_SSL:
+                            conds["ssl"] = truth
                     ctx.ob("C11.response-layout", conds.get("after_tls") is False and conds.get("ssl") is True,
                            "the user name is skipped on a path with %s (only the pre-TLS SSL request may omit it)" % conds, fn=ch.path, construct="user-skipped",
                            where=ch.where(p.blocks[-1]))
